@@ -163,6 +163,9 @@ BOUND2_PAIRS = BOUND2_QUICK + [('conform7_vcv', 'conform7_rev_vcv'), ('conform14
                                ('add_date_apm', 'conform14_apm_rev')]
 
 
+HELD = []       # (call name, result object, canonical form at return time): results belong to the caller
+
+
 def execute(name):
     """one real call: returns (canonical result, list of argument violations)"""
     fn, args = ALPHABET[name]()
@@ -170,6 +173,8 @@ def execute(name):
     try:
         r = fn(*args)
         res = ('ok', snp.canon(r))
+        HELD.append((name, r, res[1]))
+        del HELD[:-4]
     except Exception as e:
         res = ('raise', type(e).__name__, str(e)[:120])
     after = [snp.canon(a) for a in args]
@@ -195,9 +200,18 @@ def in_child(fn):
         finally:
             os._exit(0)
     os.close(w)
-    with os.fdopen(r, 'rb') as f:
-        data = f.read()
-    os.waitpid(pid, 0)
+    try:
+        with os.fdopen(r, 'rb') as f:
+            data = f.read()
+        os.waitpid(pid, 0)
+    except BaseException:
+        # watchdog / interruption: never leave the forked interpreter behind
+        try:
+            os.kill(pid, 9)
+            os.waitpid(pid, 0)
+        except OSError:
+            pass
+        raise
     out = pickle.loads(data)
     if out[0] == 'err':
         raise HarnessError('child failed:\n' + out[1])
@@ -236,8 +250,9 @@ def run_history(hist):
         writes = BAR.take()
         const_same = snp.snap_constants() == PRISTINE_CONST
         mods = snp.snap_modules()
+        stale = [hn for (hn, hr, hc) in HELD[:-1] if snp.canon(hr) != hc]
         obs.append({'call': n, 'res': res, 'args_changed': changed, 'writes': writes[:6], 'n_writes': len(writes),
-                    'const_same': const_same, 'mod_diff': snp.diff_modules(PRISTINE_MODS, mods),
+                    'const_same': const_same, 'mod_diff': snp.diff_modules(PRISTINE_MODS, mods), 'stale': stale,
                     'state': hash((snp.snap_constants(), tuple(sorted(mods.items()))))})
     return obs
 
@@ -266,6 +281,10 @@ def check_obs(rec, hist, obs, one):
         bad = True
         rec.fail('the call modified an argument supplied by the caller', site='purity:args:' + n, observed=o['args_changed'],
                  case=one, coords=co)
+    if o.get('stale'):
+        bad = True
+        rec.fail('a value returned by an earlier call (%s) was changed by a later call: results share storage' % o['stale'][0],
+                 site='purity:result-overwritten:' + o['stale'][0], observed=o['stale'], case=one, coords=co)
     if o['res'] != ref[n]:
         bad = True
         if ref[n][0] != 'ok' and o['res'][0] != 'ok':
@@ -501,8 +520,8 @@ def ev_sched(case, rec):
 
 
 SUBCHECKS = [
-    Sub('seq', gen_seq, ev_seq, chunk=1, floor=40),
-    Sub('sched', gen_sched, ev_sched, chunk=1, floor=100),
+    Sub('seq', gen_seq, ev_seq, chunk=1, floor=40, timeout=3600),
+    Sub('sched', gen_sched, ev_sched, chunk=1, floor=100, timeout=3600),
 ]
 
 
